@@ -739,7 +739,76 @@ def work_trapjump(shard):
     return part
 
 
+# ---------------------------------------------------------------------------
+# loops typed in direct mode, one after the other in the same session: each behaves as it does in a fresh session
+
+DIRECT_LINES = [
+    b'FOR I=1 TO 3:PRINT "a";I;:NEXT',
+    b'FOR I=1 TO 3:PRINT "b";I;:PRINT "c";:NEXT',
+    b'FOR I=1 TO 3:PRINT "d";:NEXT:PRINT "e";',
+    b'FOR I=5 TO 3:PRINT "x";:NEXT:PRINT "g";',
+    b'FOR I=5 TO 3:PRINT "y";:PRINT "z";:NEXT:PRINT "h";',
+    b'Q=0:FOR I=1 TO 2:PRINT "q";:NEXT',
+    b'FOR I=1 TO 2:FOR J=1 TO 2:PRINT I;J;:NEXT:NEXT',
+    b'FOR I=1 TO 2:FOR J=1 TO 2:PRINT "n";:NEXT J,I:PRINT "m";',
+    b'W=0:WHILE W<2:W=W+1:PRINT "w";:WEND',
+    b'W=0:WHILE W<2:W=W+1:PRINT "v";:PRINT "u";:WEND:PRINT "t";',
+    b'GOTO 20',        # a stored program with a loop at the same place
+]
+DIRECT_PROGRAM = [b'10 END', b'20 FOR I=1 TO 3:PRINT "p";I;:NEXT:PRINT "r";:END']
+
+
+def _direct_session():
+    s = H.new_session(horizon=4000)
+    for l in DIRECT_PROGRAM:
+        r = H.run(s, l)
+        if r.exc is not None or r.out.strip():
+            raise CheckError('line not accepted: %r' % (l,))
+    return s
+
+
+def work_direct(shard):
+    part = Partial()
+    alone = {}
+    for i, l in enumerate(DIRECT_LINES):
+        s = _direct_session()
+        r = H.run(s, l)
+        alone[i] = (r.out, r.err, repr(r.exc) if r.exc is not None else None)
+        s.close()
+    for seq in shard:
+        s = _direct_session()
+        case = {'direct_lines': [DIRECT_LINES[i].decode('ascii') for i in seq], 'seq': list(seq)}
+        for pos, i in enumerate(seq):
+            r = H.run(s, DIRECT_LINES[i])
+            part.n += 1
+            got = (r.out, r.err, repr(r.exc) if r.exc is not None else None)
+            if r.exc is not None:
+                part.violation('direct-reuse/host-exception/%s' % H.exc_key(r.exc), '%r raised %r' % (DIRECT_LINES[i], r.exc), case)
+                break
+            if got != alone[i]:
+                part.violation('direct-reuse/%s/differs-from-fresh-session' % ('first' if pos == 0 else 'later'),
+                               'after %r the direct line %r prints %r (error %r); in a fresh session %r (error %r)' % (
+                                   [DIRECT_LINES[j] for j in seq[:pos]], DIRECT_LINES[i], got[0], got[1], alone[i][0], alone[i][1]), case)
+                break
+        part.traces += 1
+        part.classes.add('direct-reuse/len%d' % len(seq))
+        s.close()
+    part.sample({'seq': list(shard[0])})
+    return part
+
+
 def legs(ctx):
+    import itertools
+    n = len(DIRECT_LINES)
+    seqs = list(itertools.permutations(range(n), 2)) + ([] if ctx.quick else list(itertools.permutations(range(n), 3)))
+    return _legs_programs(ctx) + [
+        Leg('direct-reuse', list(chunked(seqs, 40)), work_direct, exhaustive=True,
+            bound='all %d ordered sequences of %s of %d direct-mode lines with FOR / WHILE loops (same headers, different bodies, '
+                  'empty loops, nested loops, a stored program entered with GOTO) in one session: each line prints what it prints '
+                  'in a fresh session' % (len(seqs), '2' if ctx.quick else '2..3', n))]
+
+
+def _legs_programs(ctx):
     out = []
     tier = ctx.tier
     for pname in ('nest', 'for', 'on', 'gosub'):
@@ -772,6 +841,8 @@ def legs(ctx):
 
 
 def replay(ctx, leg, case):
+    if leg == 'direct-reuse':
+        return work_direct([tuple(case['seq'])])
     part = Partial()
     runner = Runner()
     if leg.startswith('grammar-'):
